@@ -85,7 +85,19 @@ impl Endpoint {
     }
 
     pub async fn start_on(w: &Arc<World>, path: &str, port: u16) -> std::io::Result<Endpoint> {
-        let listener = TcpListener::bind(("127.0.0.1", port)).await?;
+        // (the ephemeral port range can be exhausted for a moment when 16 shards churn through
+        // thousands of short-lived connections: wait a little in real time and try again)
+        let mut tries = 0;
+        let listener = loop {
+            match TcpListener::bind(("127.0.0.1", port)).await {
+                Ok(l) => break l,
+                Err(e) if e.kind() == std::io::ErrorKind::AddrInUse && port == 0 && tries < 100 => {
+                    tries += 1;
+                    std::thread::sleep(std::time::Duration::from_millis(100));
+                }
+                Err(e) => return Err(e),
+            }
+        };
         let port = listener.local_addr()?.port();
         let log = Arc::new(Mutex::new(Vec::new()));
         let script = Arc::new(Mutex::new(Script::default()));
